@@ -95,7 +95,9 @@ class _P:
 
 def _key(k):
     if isinstance(k, list):
-        return tuple(k)
+        return tuple(_key(x) for x in k)
+    if isinstance(k, dict) and '__set__' in k:      # a function whose domain consists of sets: the key is the sorted members joined by '+'
+        return '+'.join(sorted(str(x) for x in k['__set__']))
     return k
 
 
